@@ -77,6 +77,25 @@ Check (sorted_output_respects_lt : forall c64 c32 f64 f32 d ds rows out,
     hd None (nth i out []) = Some a -> hd None (nth j out []) = Some b ->
     (if d then lt_sparql c64 c32 a b else lt_sparql c64 c32 b a) <> Some true).
 
+(* the same at any key whose predecessors tie *)
+Check (sorted_output_key_order : forall descs rows out,
+  Forall (row_ok descs) rows -> Permutation rows out -> Sorted (rows_le descs) out ->
+  forall i j k, (i < j < length out)%nat -> (k < length descs)%nat ->
+    (forall m, (m < k)%nat ->
+       key_cmp order_by (nth m (nth i out []) None) (nth m (nth j out []) None) = Eq) ->
+    dir (nth k descs false)
+        (key_cmp order_by (nth k (nth i out []) None) (nth k (nth j out []) None)) <> Gt).
+Check (sorted_output_respects_lt_at_key : forall c64 c32 f64 f32 descs rows out,
+  conv_ok c64 f64 -> conv_ok c32 f32 ->
+  Forall (row_ok descs) rows ->
+  Forall (Forall (fun k => match k with Some a => item_fmt f64 f32 a | None => True end)) rows ->
+  Permutation rows out -> Sorted (rows_le descs) out ->
+  forall i j k a b, (i < j < length out)%nat -> (k < length descs)%nat ->
+    (forall m, (m < k)%nat ->
+       key_cmp order_by (nth m (nth i out []) None) (nth m (nth j out []) None) = Eq) ->
+    nth k (nth i out []) None = Some a -> nth k (nth j out []) None = Some b ->
+    (if nth k descs false then lt_sparql c64 c32 a b else lt_sparql c64 c32 b a) <> Some true).
+
 (* the comparator of the original tree is not transitive, whatever the conversions are *)
 Check (order_not_transitive_prefix : forall c64 c32, exists a b d,
   item_ok a /\ item_ok b /\ item_ok d /\
@@ -113,6 +132,8 @@ Print Assumptions cmp_bindings_order_by_preorder.
 Print Assumptions sorted_permutation_exists.
 Print Assumptions sorted_output_has_no_inversion.
 Print Assumptions sorted_output_respects_lt.
+Print Assumptions sorted_output_key_order.
+Print Assumptions sorted_output_respects_lt_at_key.
 Print Assumptions order_not_transitive_prefix.
 Print Assumptions order_not_transitive_prefix_illtyped.
 Print Assumptions order_not_transitive_prefix_datetime.
